@@ -239,7 +239,12 @@ def stepMask (sh : List Nat) (st : State) (v : View) (kind : String) (pyout : Se
   let implok := match full with
     | .ok f => exEq viewed (Spec.viewOf f v)
     | .error _ => false
-  driverResult impl ok implok (v.posStep && st.quiet sh v) (kind ++ "/" ++ viewKind v)
+  -- 0-d results of the chunked ROI tests / looping categorical classes are a stratum of their own in the
+  -- evidence (the former findings C04h, C04i)
+  let scalar := match viewed with
+    | .ok a => if a.shape.isEmpty && (kind == "roichunk" || kind == "loop1d") then "/0d" else ""
+    | .error _ => ""
+  driverResult impl ok implok (v.posStep) (kind ++ "/" ++ viewKind v ++ scalar)
 
 /-- `idxattr` / `idxmask`: a reduced dataset, before and after its indices are changed.
 python `(parentFull viewed0 viewed1)`. -/
